@@ -91,6 +91,9 @@ type Server struct {
 	Dropped  int
 	// Echo answers raw (non liteServer.query) requests with tag|sha256(payload)|counter.
 	EchoCounter int
+	// LieOuterLen, when non-zero, makes the next adnl.message.answer declare this many answer bytes
+	// while carrying the real (shorter) ones. One-shot.
+	LieOuterLen int
 	// Custom handlers by function id; return nil to fall through.
 	Custom func(s *Server, c *core.Conn, fn uint32, r *tlref.R) []byte
 	// OnRawQuery observes every adnl query (after framing).
@@ -220,7 +223,14 @@ func (s *Server) onPacket(c *core.Conn, p []byte) {
 // AnswerPacket builds adnl.message.answer.
 func (s *Server) AnswerPacket(qid []byte, answer []byte) []byte {
 	w := &tlref.W{}
-	w.U32(s.Sch.ID("adnl.message.answer")).I256(qid).Bytes(answer)
+	w.U32(s.Sch.ID("adnl.message.answer")).I256(qid)
+	if s.LieOuterLen != 0 {
+		w.BytesLying(s.LieOuterLen, answer, s.LieOuterLen >= 254)
+		s.LieOuterLen = 0
+		s.W.Probe("lie-outer-answer-length")
+		return w.B
+	}
+	w.Bytes(answer)
 	return w.B
 }
 
